@@ -523,4 +523,172 @@ theorem box_suffices_lists (n : Nat) (orbs : List Orbit) (hok : orbitsOk orbs = 
     rw [mem_boxOf]
     exact ⟨by rw [hlen, hvl], fun i hi => ⟨hadm i (by omega), hle i (by omega)⟩⟩
 
+/-! ### the pruned walk through the box -/
+
+theorem getD_set' (l : List Nat) (n v i : Nat) (hn : n < l.length) :
+    (l.set n v).getD i 0 = if i = n then v else l.getD i 0 := by
+  simp only [List.getD, List.getElem?_set]
+  by_cases h : n = i
+  · subst h; simp [hn]
+  · have h' : ¬ i = n := fun e => h e.symm
+    simp [h, h']
+
+theorem list_ext_getD' (a b : List Nat) (hl : a.length = b.length)
+    (h : ∀ i, i < a.length → a.getD i 0 = b.getD i 0) : a = b := by
+  apply List.ext_getElem hl
+  intro i h1 h2
+  have := h i h1
+  simpa [List.getD, List.getElem?_eq_getElem h1, List.getElem?_eq_getElem h2] using this
+
+/-- raising entries does not raise the Spec's curvature -/
+theorem curvature_anti (n : Nat) {orbs : List Orbit} (hok : orbitsOk orbs = true) (a b : List Nat)
+    (ha : a.length = orbs.length) (hb : b.length = orbs.length)
+    (hab : ∀ i, i < orbs.length → 1 ≤ a.getD i 0 ∧ a.getD i 0 ≤ b.getD i 0) :
+    (curvature n orbs a).den ≠ 0 ∧ (curvature n orbs b).den ≠ 0 ∧
+    (curvature n orbs b).val ≤ (curvature n orbs a).val := by
+  have h1 := curvature_val n hok a ha (fun i hi => (hab i (by omega)).1)
+  have h2 := curvature_val n hok b hb (fun i hi => by have := hab i (by omega); omega)
+  refine ⟨h1.1, h2.1, ?_⟩
+  rw [h1.2, h2.2]
+  exact Kf_anti (weight_pos hok) (aOf b) (aOf a) hab
+
+theorem isNeg_of_le (n : Nat) {orbs : List Orbit} (hok : orbitsOk orbs = true) (a b : List Nat)
+    (ha : a.length = orbs.length) (hb : b.length = orbs.length)
+    (hab : ∀ i, i < orbs.length → 1 ≤ a.getD i 0 ∧ a.getD i 0 ≤ b.getD i 0)
+    (hneg : (curvature n orbs a).isNeg = true) : (curvature n orbs b).isNeg = true := by
+  obtain ⟨h1, h2, h3⟩ := curvature_anti n hok a b ha hb hab
+  rw [Fr.isNeg_iff _ h2]
+  have := (Fr.isNeg_iff _ h1).mp hneg
+  linarith
+
+/-- what the walk must not lose: K ≥ 0, or minimally hyperbolic -/
+def Wanted (n : Nat) (orbs : List Orbit) (vmins b : List Nat) : Prop :=
+  (curvature n orbs b).isNeg = false ∨ minimallyHyperbolic n orbs vmins b = true
+
+theorem minHyp_unpack {n : Nat} {orbs : List Orbit} {vmins b : List Nat}
+    (h : minimallyHyperbolic n orbs vmins b = true) :
+    (curvature n orbs b).isNeg = true ∧
+    ∀ k, k < b.length → b.getD k 0 > vmins.getD k 0 → (curvature n orbs (lowered b k)).isNeg = false := by
+  unfold minimallyHyperbolic at h
+  simp only [Bool.and_eq_true, List.all_eq_true, List.mem_range, Bool.or_eq_true,
+    Bool.not_eq_true', decide_eq_false_iff_not] at h
+  refine ⟨h.1, fun k hk hgt => ?_⟩
+  rcases h.2 k hk with h1 | h1
+  · exact absurd hgt h1
+  · exact h1
+
+theorem candidates_complete_aux (n : Nat) {orbs : List Orbit} (hok : orbitsOk orbs = true)
+    (vmins : List Nat) (top : Nat) (hvl : vmins.length = orbs.length)
+    (hv1 : ∀ i, i < vmins.length → 1 ≤ vmins.getD i 0)
+    (b : List Nat) (hb : b ∈ boxOf vmins top) (hP : Wanted n orbs vmins b) :
+    ∀ (fuel k : Nat) (a : List Nat), fuel + k = orbs.length → a.length = orbs.length →
+      (∀ i, i < k → a.getD i 0 = b.getD i 0) →
+      (∀ i, k ≤ i → i < orbs.length → a.getD i 0 = vmins.getD i 0) →
+      b ∈ candidates n orbs vmins top fuel k a := by
+  obtain ⟨hbl, hbb⟩ := (mem_boxOf vmins top b).mp hb
+  intro fuel
+  induction fuel with
+  | zero =>
+    intro k a hk hal h1 _
+    simp only [candidates, List.mem_singleton]
+    apply list_ext_getD' _ _ (by rw [hbl, hvl, hal])
+    intro i hi
+    exact (h1 i (by omega)).symm
+  | succ fuel ih =>
+    intro k a hk hal h1 h2
+    have hkm : k < orbs.length := by omega
+    simp only [candidates, List.mem_flatMap, List.mem_range'_1]
+    have hbk := hbb k (by omega)
+    refine ⟨b.getD k 0, ⟨hbk.1, by omega⟩, ?_⟩
+    have hset : ∀ i, (a.set k (b.getD k 0)).getD i 0 = if i = k then b.getD k 0 else a.getD i 0 :=
+      fun i => getD_set' a k _ i (by omega)
+    have hlen' : (a.set k (b.getD k 0)).length = orbs.length := by simp [hal]
+    -- the prefix vector is below b, entry-wise
+    have hle : ∀ i, i < orbs.length →
+        1 ≤ (a.set k (b.getD k 0)).getD i 0 ∧ (a.set k (b.getD k 0)).getD i 0 ≤ b.getD i 0 := by
+      intro i hi
+      rw [hset i]
+      have hbi := hbb i (by omega)
+      have hvi := hv1 i (by omega)
+      by_cases hik : i = k
+      · rw [if_pos hik, hik]; omega
+      · rw [if_neg hik]
+        by_cases hlt : i < k
+        · rw [h1 i hlt]; omega
+        · rw [h2 i (by omega) hi]; omega
+    by_cases hneg : (curvature n orbs (a.set k (b.getD k 0))).isNeg = true
+    · rw [if_pos hneg, List.mem_singleton]
+      -- b itself is negative, hence minimally hyperbolic, hence minimal after k
+      have hbneg := isNeg_of_le n hok _ b hlen' (by rw [hbl, hvl]) hle hneg
+      have hmh : minimallyHyperbolic n orbs vmins b = true := by
+        rcases hP with h | h
+        · rw [hbneg] at h; cases h
+        · exact h
+      obtain ⟨_, hlow⟩ := minHyp_unpack hmh
+      apply list_ext_getD' _ _ (by rw [hbl, hvl, hlen'])
+      intro i hi
+      have hi' : i < orbs.length := by omega
+      rw [hset i]
+      by_cases hik : i = k
+      · rw [if_pos hik, hik]
+      · rw [if_neg hik]
+        by_cases hlt : i < k
+        · exact (h1 i hlt).symm
+        · rw [h2 i (by omega) hi']
+          by_contra hne
+          have hgt : b.getD i 0 > vmins.getD i 0 := by
+            have := (hbb i (by omega)).1
+            omega
+          have hnn := hlow i (by omega) hgt
+          -- the lowered vector is still above the prefix vector
+          have hle' : ∀ j, j < orbs.length →
+              1 ≤ (a.set k (b.getD k 0)).getD j 0 ∧
+              (a.set k (b.getD k 0)).getD j 0 ≤ (lowered b i).getD j 0 := by
+            intro j hj
+            refine ⟨(hle j hj).1, ?_⟩
+            unfold lowered
+            rw [getD_set' b i _ j (by omega)]
+            by_cases hji : j = i
+            · rw [if_pos hji, hset j, if_neg (by omega), h2 j (by omega) hj, hji]
+              omega
+            · rw [if_neg hji]; exact (hle j hj).2
+          have := isNeg_of_le n hok _ (lowered b i) hlen' (by simp [lowered, hbl, hvl]) hle' hneg
+          rw [this] at hnn
+          cases hnn
+    · rw [if_neg hneg]
+      apply ih (k + 1) _ (by omega) hlen'
+      · intro i hi
+        rw [hset i]
+        by_cases hik : i = k
+        · rw [if_pos hik, hik]
+        · rw [if_neg hik]; exact h1 i (by omega)
+      · intro i hi1 hi2
+        rw [hset i, if_neg (by omega)]
+        exact h2 i (by omega) hi2
+
+/-- **the walk loses nothing**: every member of the box that has K ≥ 0 or is minimally
+    hyperbolic is a candidate -/
+theorem candidates_complete_lists (n : Nat) {orbs : List Orbit} (hok : orbitsOk orbs = true)
+    (vmins : List Nat) (top : Nat) (hvl : vmins.length = orbs.length)
+    (hv1 : ∀ i, i < vmins.length → 1 ≤ vmins.getD i 0)
+    (b : List Nat) (hb : b ∈ boxOf vmins top) (hP : Wanted n orbs vmins b) :
+    b ∈ candidatesOf n orbs vmins top := by
+  unfold candidatesOf
+  exact candidates_complete_aux n hok vmins top hvl hv1 b hb hP vmins.length 0 vmins (by omega) hvl
+    (fun i hi => by omega) (fun i _ _ => rfl)
+
+/-- the premise evaluated on the candidates is the premise on the whole box -/
+theorem premise_of_candidates_lists (n : Nat) {orbs : List Orbit} (hok : orbitsOk orbs = true)
+    (vmins : List Nat) (top : Nat) (hvl : vmins.length = orbs.length)
+    (hv1 : ∀ i, i < vmins.length → 1 ≤ vmins.getD i 0)
+    (h : candPremise n orbs vmins top = true) : boxPremise n orbs vmins top = true := by
+  unfold boxPremise
+  rw [List.all_eq_true]
+  intro b hb
+  by_cases hneg : (curvature n orbs b).isNeg = true
+  · simp [hneg]
+  · have hw : Wanted n orbs vmins b := Or.inl (by simpa using hneg)
+    have hc := candidates_complete_lists n hok vmins top hvl hv1 b hb hw
+    exact List.all_eq_true.mp h b hc
+
 end DSymVerif.SpecC07
